@@ -3,7 +3,7 @@
 # applies the patch to a scratch clone of /repo (never /repo itself), runs the quick checks against it, reverts
 set -u
 patch=$(readlink -f "$1"); shift
-M=/tmp/repo_mut
+M=${MUT_DIR:-/tmp/repo_mut}
 [ -d $M/.git ] || git clone -q /repo $M
 git -C $M fetch -q origin && git -C $M checkout -q --detach origin/HEAD 2>/dev/null || git -C $M checkout -q --detach $(git -C /repo rev-parse HEAD)
 git -C $M checkout -q -- . 
